@@ -261,6 +261,24 @@ func (ck *Check) runIsolated(b *Batch, seed uint64, tier string, n int, known ma
 				}
 				for from < to {
 					r := ck.spawn(b, seed, []string{"child", b.Name, tier, strconv.Itoa(from), strconv.Itoa(to)}, nil, false)
+					if r.timedOut && b.TimeoutIsViolation && r.lastRun >= 0 && per == 1 {
+						// a time-out only counts as a violation when the run does not
+						// finish within three times the limit in a second child
+						// either: a loaded machine must not raise an alarm
+						bb := *b
+						bb.ChildTimeout = 3 * b.ChildTimeout
+						if bb.ChildTimeout == 0 {
+							bb.ChildTimeout = 360 * time.Second
+						}
+						r2 := ck.spawn(&bb, seed, []string{"child", b.Name, tier, strconv.Itoa(r.lastRun), strconv.Itoa(r.lastRun + 1)}, nil, false)
+						if !r2.timedOut {
+							fmt.Fprintf(os.Stderr, "run %d of batch %s exceeded its time limit once but finished on retry: slow machine, not a hang\n", r.lastRun, b.Name)
+							// merge: runs before lastRun are lost from the statistics of
+							// the first child; continue from the retried run's result
+							from = r.lastRun
+							r = r2
+						}
+					}
 					var out *Outcome
 					var tape []uint32
 					idx := -1
